@@ -31,6 +31,10 @@ CHECKS = {
     "C18": ("2 (C18)", "Small FIXContainer / FIXMessage objects built from symbolic tags (int / decimal-string / enum spelling) and symbolic values, "
                   "then one operation with symbolic arguments (get / contains / replace / setitem / delete / group insertion and lookup / "
                   "equality with containers and dicts), compared with a reference ordered map."),
+    "C19": ("2 (C19)", "SchemaField.validate_value on symbolic value strings per FIX datatype (all short strings over type-specific alphabets incl. "
+                  "whitespace, sign, underscore, exponent letters, non-ASCII digits; fixed-layout date/time values with symbolic characters "
+                  "substituted / inserted / deleted at every position; all digit strings per calendar part) against reference lexical "
+                  "predicates; enumerated fields of both dictionaries against their enumerations."),
     "C08": ("2 (C08)", "Operation sequences on the real Journaler (FakeSQLite) with the crash slot as a solver variable over every point "
                   "before/after every SQL statement and commit, plus normal close; after the crash a fresh Journaler must show a state "
                   "at an operation boundary. Counterexamples and sampled witnesses are re-run on the real sqlite3 with os._exit in a child."),
